@@ -5,8 +5,11 @@ import (
 	"fmt"
 	"math/rand/v2"
 	"reflect"
+	"sort"
 	"time"
 	"unsafe"
+
+	"github.com/philpearl/plenc"
 
 	"verifharness/core"
 	"verifharness/gen"
@@ -236,6 +239,119 @@ func skippedDiff(a, b reflect.Value, path string) string {
 	return ""
 }
 
+// c08PtrKeys: maps whose keys are pointers are accepted (a key is then written as what it points
+// to). The codec handed out must work: every entry comes back, each under a pointer of its own to an
+// equal key, at top level, as a field and in the repeated form; and a map decoded earlier is not
+// changed by decoding the next one.
+func c08PtrKeys(c *core.Ctx, idx int, cfg model.Cfg, name string, p *plenc.Plenc) {
+	rec := c.Rec
+	r := c.Rand(idx)
+	T := reflect.TypeOf
+	kts := []reflect.Type{T(int(0)), T(""), T(types.Key{}), T(uint16(0)), T(int64(0))}
+	vts := []reflect.Type{T(""), T(int32(0)), T(types.Leaf{}), T([]byte(nil)), T(false)}
+	for round := 0; round < 10; round++ {
+		kt, vt := kts[r.IntN(len(kts))], vts[r.IntN(len(vts))]
+		mt := reflect.MapOf(reflect.PointerTo(kt), vt)
+		typ := mt
+		field := -1
+		switch round % 3 {
+		case 1:
+			typ, field = structOf(sf("A", T(0), `plenc:"1"`), sf("M", mt, `plenc:"2"`), sf("Z", T(""), `plenc:"3"`)), 1
+		case 2:
+			typ, field = structOf(sf("M", mt, `plenc:"1,proto"`), sf("Z", T(""), `plenc:"3"`)), 0
+		}
+		if cfg.Validate(typ, "") != "" {
+			continue
+		}
+		var cerr error
+		if pn := core.Guard(func() { _, cerr = p.CodecForType(typ) }); pn != "" || cerr != nil {
+			rec.Violation("valid-type-rejected", fmt.Sprintf("[%s] a map with pointer keys: %v %s\n  type %s", name, cerr, trunc1(pn), typeString(typ)), nil)
+			return
+		}
+		type kv struct{ k, v string }
+		build := func() (reflect.Value, []kv) {
+			vg := &gen.VG{R: r, C: cfg, Budget: 30}
+			m := reflect.MakeMap(mt)
+			var want []kv
+			seen := map[string]bool{}
+			n := 2 + r.IntN(4)
+			for i := 0; i < n; i++ {
+				k := vg.Value(kt, "")
+				if kt.Kind() == reflect.Float64 && k.Float() != k.Float() {
+					continue
+				}
+				ks := model.Show(cfg.Normalise(k, "", true))
+				if seen[ks] {
+					continue
+				}
+				seen[ks] = true
+				kp := reflect.New(kt)
+				kp.Elem().Set(k)
+				v := vg.Value(vt, "")
+				m.SetMapIndex(kp, v)
+				want = append(want, kv{ks, model.Show(cfg.Normalise(v, "", true))})
+			}
+			sort.Slice(want, func(i, j int) bool { return want[i].k < want[j].k })
+			top := reflect.New(typ).Elem()
+			if field < 0 {
+				top.Set(m)
+			} else {
+				top.Field(field).Set(m)
+			}
+			return top, want
+		}
+		read := func(top reflect.Value) ([]kv, string) {
+			m := top
+			if field >= 0 {
+				m = top.Field(field)
+			}
+			var got []kv
+			ptrs := map[uintptr]bool{}
+			for it := m.MapRange(); it.Next(); {
+				if it.Key().IsNil() {
+					return nil, "a nil key"
+				}
+				if ptrs[it.Key().Pointer()] {
+					return nil, "two entries under one pointer"
+				}
+				ptrs[it.Key().Pointer()] = true
+				got = append(got, kv{model.Show(it.Key().Elem()), model.Show(it.Value())})
+			}
+			sort.Slice(got, func(i, j int) bool { return got[i].k < got[j].k })
+			return got, ""
+		}
+		var kept reflect.Value
+		var keptWant []kv
+		for rep := 0; rep < 3; rep++ {
+			v, want := build()
+			data, err, pn := marshal(p, nil, ptrTo(v))
+			out := reflect.New(typ)
+			if err == nil && pn == "" {
+				err, pn = unmarshal(p, data, out.Interface())
+			}
+			rec.Eval(1)
+			if err != nil || pn != "" {
+				rec.Violation("accepted-type-fails", fmt.Sprintf("[%s] the codec handed out for a map with pointer keys fails: %v %s\n  type %s\n  bytes %s", name, err, trunc1(pn), typeString(typ), hexHead(data)), nil)
+				return
+			}
+			got, why := read(out.Elem())
+			if why != "" || fmt.Sprint(got) != fmt.Sprint(want) {
+				rec.Violation("accepted-type-fails", fmt.Sprintf("[%s] the codec handed out for a map with pointer keys does not bring the entries back (%s)\n  type %s\n  encoded (key, value) %v\n  decoded (key, value) %v\n  bytes %s", name, why, typeString(typ), want, got, hexHead(data)), nil)
+				return
+			}
+			if kept.IsValid() {
+				if again, why := read(kept); why != "" || fmt.Sprint(again) != fmt.Sprint(keptWant) {
+					rec.Violation("accepted-type-fails", fmt.Sprintf("[%s] a map with pointer keys decoded earlier changed when the next one was decoded (%s)\n  type %s\n  was %v\n  is  %v", name, why, typeString(typ), keptWant, again), nil)
+					return
+				}
+			}
+			kept, keptWant = out.Elem(), want
+		}
+		rec.Count("pointer_keyed_maps", 1)
+		rec.NonTrivial(core.Hash64("ptrkeys", typ.String(), name))
+	}
+}
+
 func c08Case(c *core.Ctx, idx int) {
 	rec := c.Rec
 	r := c.RandFor(idx, "plant")
@@ -244,6 +360,10 @@ func c08Case(c *core.Ctx, idx int) {
 	name := cfgName(cfg)
 	p := instNew(cfg)
 	tc := &tcase{cfg: cfg, name: name, p: p}
+	if idx%19 == 7 {
+		c08PtrKeys(c, idx, cfg, name, p)
+		return
+	}
 	switch idx % 3 {
 	case 0, 1:
 		plants := c08Plants()
